@@ -253,6 +253,9 @@ def rule_isolate(ctx):
     ctx.check(ok, "C18.ISOLATE", st.short, "server shutdown closes all connections in a finally block", "TCP.start does not close the open connections when the server stops", fi=st, text="shutdown")
 
 
+# 'its BLOB settings are discarded' / 'a peer that reconnects starts from default settings' are decided by the router rules
+IMPORTS = [('C05', 'C05.FORGET'), ('C05', 'C05.DEFAULT')]
+
 RULES = [
     ("C18.REG", rule_reg, "connection handlers register on construction; constructed only by their transport"),
     ("C18.PAIR", rule_pair, "every exit of the connection owner (incl. exception out of the receive loop) passes close()"),
